@@ -31,7 +31,7 @@ RULE = (
     "correspondence: every integer degree 0..max+2 of each of the 4 methods (always) and every size "
     "0..max+2 (thorough: all; quick: every table key k and k-1,k+1 plus a VERIF_SEED stride) sent to "
     "AngularGrid._get_degree_and_size and to the Lean model; random size sequences to "
-    "convert_angular_sizes_to_degrees; non-trivial = request is not itself a table key (bisect path) "
+    "convert_angular_sizes_to_degrees as one history of calls sharing a pool of sizes across methods; non-trivial = request is not itself a table key (bisect path) "
     "or is above the maximum (rejection path) or a sequence with >=2 distinct sizes"
 )
 TRUSTED_BASE = [
@@ -46,6 +46,7 @@ ASSUMPTIONS = [
 ]
 
 METHODS = ["lebedev", "spherical", "maxdet", "ahrens_beylkin"]
+_HISTORY = []   # every converter call made in this process, in order (replayed by the snippet)
 PREFIX = {"lebedev": "LEBEDEV", "spherical": "SPHERICAL", "maxdet": "MAX_DET", "ahrens_beylkin": "AHRENS_BEYLKIN"}
 DIRS = {"lebedev": "lebedev", "spherical": "spherical_design", "maxdet": "maxdet", "ahrens_beylkin": "ahrens_beylkin"}
 
@@ -113,19 +114,33 @@ def corr(ctx: Ctx):
         r = _impl(ang, m)
         if r != "value-error":
             ctx.fail("corr", f"resolve:{m}:malformed", f"degree=None,size=None not rejected: {r}")
-    # converter on sequences
-    nseq = ctx.n(60, 1500)
+    # converter on sequences: a *history* of calls in one process; the sizes come from one shared
+    # pool (table keys of every method and values around them), so the same size is converted
+    # under different methods, in both orders, repeatedly — the rule is stateless, any memory of
+    # earlier calls shows up as a disagreement with the model
+    pool = set()
+    for m in METHODS:
+        ks = sorted(getattr(ang, PREFIX[m] + "_NPOINTS"))
+        for k in ks[:14] + ctx.rng.sample(ks, min(6, len(ks))) + [ks[-1]]:
+            pool.update((k - 1, k, k + 1))
+    pool = sorted(x for x in pool if x >= 0)
+    nseq = ctx.n(160, 3000)
     seqs = []
     for _ in range(nseq):
         m = ctx.rng.choice(METHODS)
         npts = list(getattr(ang, PREFIX[m] + "_NPOINTS"))
         L = ctx.rng.randrange(0, 9)
-        pool = [ctx.rng.randrange(0, max(npts) + 1) for _ in range(max(1, L // 2))] + [ctx.rng.choice(npts)]
-        if ctx.rng.random() < 0.1:
-            pool.append(max(npts) + 1 + ctx.rng.randrange(5))
-        seqs.append((m, [ctx.rng.choice(pool) for _ in range(L)]))
+        r = ctx.rng.random()
+        if r < 0.7:
+            src = pool
+        else:
+            src = [ctx.rng.randrange(0, max(npts) + 1) for _ in range(max(1, L // 2))] + [ctx.rng.choice(npts)]
+            if ctx.rng.random() < 0.3:
+                src.append(max(npts) + 1 + ctx.rng.randrange(5))
+        seqs.append((m, [ctx.rng.choice(src) for _ in range(L)]))
     model = driver_batch([f"C12.convert {m} {len(s)} " + " ".join(map(str, s)) for m, s in seqs])
     for (m, s), ans in zip(seqs, model):
+        _HISTORY.append([m, list(s)])
         try:
             d = ang.AngularGrid.convert_angular_sizes_to_degrees(np.array(s, dtype=int), m)
             impl = "ok " + " ".join([str(len(d))] + [str(int(x)) for x in d])
@@ -133,8 +148,10 @@ def corr(ctx: Ctx):
             impl = "value-error"
         ctx.count(["convert", m, s], nontrivial=len(set(s)) >= 2, tag="convert:" + ("reject" if impl == "value-error" else "ok"))
         if impl != ans:
-            ctx.fail("corr", f"convert:{m}", f"convert_angular_sizes_to_degrees({s}, {m}): implementation {impl}, model {ans}",
-                     witness={"method": m, "sizes": s, "impl": impl, "model": ans})
+            ctx.fail("corr", f"convert:{m}", f"convert_angular_sizes_to_degrees({s}, {m}) after earlier calls with other methods: implementation {impl}, model {ans}",
+                     witness={"method": m, "sizes": s, "impl": impl, "model": ans,
+                              "history": [[mm, ss] for mm, ss in seqs[:seqs.index((m, s))][-12:]]})
+    ctx.traces += 1
 
 
 SNIPPET = """import warnings; warnings.filterwarnings('ignore')
@@ -205,14 +222,39 @@ def oracle(ctx: Ctx, budget: str):
             g = ang.AngularGrid(degree=n, method=m, cache=False)
             if npts.get(g.size) != g.degree or g.degree < n or g.points.shape != (g.size, 3):
                 ctx.fail("oracle", f"angular:{m}:built", f"AngularGrid(degree={n}, method={m}) reports degree {g.degree}, size {g.size}")
-    # converter element-wise
-    for _ in range(20 if budget == "small" else 400):
+    # converter element-wise, as a history of calls with a shared pool of sizes across methods
+    pool = set()
+    for m in METHODS:
+        ks = sorted(getattr(ang, PREFIX[m] + "_NPOINTS"))
+        for k in ks[:14]:
+            pool.update((k - 1, k, k + 1))
+    pool = sorted(x for x in pool if x >= 0)
+    hist = []
+    for _ in range(60 if budget == "small" else 1500):
         m = ctx.rng.choice(METHODS)
         npts = getattr(ang, PREFIX[m] + "_NPOINTS")
         ks = sorted(npts)
-        s = [ctx.rng.randrange(0, ks[-1] + 1) for _ in range(ctx.rng.randrange(1, 7))]
+        s = [ctx.rng.choice(pool) if ctx.rng.random() < 0.8 else ctx.rng.randrange(0, ks[-1] + 1)
+             for _ in range(ctx.rng.randrange(1, 7))]
+        s = [x for x in s if x <= ks[-1]]
+        if not s:
+            continue
+        hist.append((m, s))
+        _HISTORY.append([m, list(s)])
         d = ang.AngularGrid.convert_angular_sizes_to_degrees(np.array(s), m)
         want = [npts[min(k for k in ks if k >= x)] for x in s]
         if [int(x) for x in d] != want:
-            ctx.fail("oracle", f"angular:{m}:convert", f"convert_angular_sizes_to_degrees({s}) = {list(d)}, element-wise rule gives {want}",
-                     witness={"method": m, "sizes": s})
+            h = [(a, b) for a, b in _HISTORY[-400:]]
+            ctx.fail("oracle", f"angular:{m}:convert", f"convert_angular_sizes_to_degrees({s}, {m}) = {[int(x) for x in d]} after {len(h) - 1} earlier converter calls in this process (other methods, same sizes), element-wise rule gives {want}",
+                     witness={"method": m, "sizes": s, "history": [[a, b] for a, b in h]},
+                     snippet=(
+                         "import warnings; warnings.filterwarnings('ignore')\nimport numpy as np\nfrom grid import angular as ang\n"
+                         f"hist = {[[a, b] for a, b in h]!r}\n"
+                         "P = {'lebedev':'LEBEDEV','spherical':'SPHERICAL','maxdet':'MAX_DET','ahrens_beylkin':'AHRENS_BEYLKIN'}\n"
+                         "for m, s in hist:\n"
+                         "    npts = getattr(ang, P[m] + '_NPOINTS'); ks = sorted(npts)\n"
+                         "    if any(x > ks[-1] for x in s): continue\n"
+                         "    d = [int(x) for x in ang.AngularGrid.convert_angular_sizes_to_degrees(np.array(s, dtype=int), m)]\n"
+                         "    want = [npts[min(k for k in ks if k >= x)] for x in s]\n"
+                         "    assert d == want, f'{m} {s}: {d} != {want}'\n"))
+            break
